@@ -22,7 +22,7 @@ ustr gen_string(Rng &r, const GenCfg &c) {
     ustr s;
     if (c.boundary_bias && r.chance(1, 3)) {
         // writer decision boundaries: line lengths around 2048, semicolon runs, trailing backslashes / blanks, text delimiters
-        unsigned shape = (unsigned) r.below(12);
+        unsigned shape = (unsigned) r.below(17);
         size_t n = 2036 + r.below(24);
         auto fill = [&](size_t k, bool spaces) { for (size_t i = 0; i < k; ++i) s += (spaces && r.chance(1, 9)) ? u' ' : (char16_t) ('a' + (i % 26)); };
         switch (shape) {
@@ -37,7 +37,13 @@ ustr gen_string(Rng &r, const GenCfg &c) {
             case 8: s += U("a'''b\"\"\"c"); if (r.chance(1, 2)) s += U("\nd"); break;
             case 9: fill(n - 8, true); put_cp(s, 0x1f600); put_cp(s, 0x10428); put_cp(s, 0x1f600); fill(r.below(12), false); break;
             case 10: fill(10, false); s += u'\n'; fill(n, true); s += u'\n'; fill(5, false); break;
-            default: s += U("x\\"); s += u'\n'; fill(r.below(10), false); break;
+            case 11: s += U("x\\"); s += u'\n'; fill(r.below(10), false); break;
+            // the LAST line ends in a backslash (optionally followed by blanks), in values that need a (folded) text field
+            case 12: fill(r.below(12), true); s += U("\\\n"); fill(r.below(12), true); s += U("\\"); if (r.chance(1, 2)) s += r.chance(1, 2) ? U(" ") : U(" \t "); break;
+            case 13: s += U("it's a \"path\\"); if (r.chance(1, 3)) s += U("  "); break;
+            case 14: fill(n + 20, true); s += U("\\"); if (r.chance(1, 3)) s += U(" "); break;
+            case 15: fill(r.below(12), true); s += U("\n;"); fill(r.below(12), true); s += U("\\"); break;
+            default: fill(r.below(12), false); s += U("\n"); fill(n + 20, true); s += U("\n"); fill(r.below(8), false); s += U("\\"); if (r.chance(1, 2)) s += U("\t"); break;
         }
         if (c.cif11_chars_only) for (auto &ch : s) if (ch > 0x7e) ch = u'z';
         if (!c.allow_newlines) for (auto &ch : s) if (ch == u'\n') ch = u' ';
